@@ -186,13 +186,45 @@ def correspond(ctx):
         s_sc.add(f"scrypt salsa {hx(blk)}", lambda blk=blk: struct_salsa(blk), "salsa")
     for n, r, p in [(16, 8, 1), (15, 8, 1), (0, 1, 1), (1, 1, 1), (2, 1, 1), (-16, 8, 1), (16, 0, 1), (16, 1, 0), (1 << 20, 1 << 15, 1 << 15), (16, 1 << 29, 2), (16, 1 << 29, 1), (24, 1, 1), (1 << 40, 1, 1)] + [(rng.randrange(-4, 70), rng.randrange(-1, 10), rng.randrange(-1, 10)) for _ in range(300)]:
         s_sc.add(f"scrypt validate {n} {r} {p}", lambda n=n, r=r, p=p: (ps.validate(n, r, p), "")[1].strip(), "validate")
-    res = merge(s_des, s_spec, s_dig, s_mac, s_bf, s_sc)
+    o_sasl = saslprep_oracle(ctx)
+    res = merge(s_des, s_spec, s_dig, s_mac, s_bf, s_sc, o_sasl)
     res["suites"]["bcrypt-core"]["bcrypt_wheel_cases"] = wheel_checked
     res["suites"]["des-spec-vs-passlib-and-openssl"]["openssl_pairs"] = ossl
     return res
 
 
 # ------------------------------------------------------------------------------------------
+def saslprep_oracle(ctx, first_only=False):
+    """passlib.utils.saslprep against an independent reading of RFC 4013 over the stdlib stringprep tables"""
+    from passlib.utils import saslprep as real_saslprep
+
+    from .C02_formats import py_saslprep
+    from .common import Oracle
+
+    rng = ctx.rng
+    o_sasl = Oracle(ctx, "saslprep-vs-rfc4013")
+    pool = ["a", "Z", "9", " ", "\u00a0", "\u1680", "\u3000", "\u00ad", "\u200b", "\u200c", "\ufe0f", "\u2060", "\ufb01", "\u2460", "\u00aa", "\u0041\u030a", "\u212b",
+            "\u0627", "\u0628", "\u05d0", "\u05d1", "\ufb1d", "\ufc5e", "\u0661", "\u06f1", "1", "\u0000", "\u007f", "\u0080", "\ue000", "\ufffe", "\ufeff", "\u0221", "\u0340",
+            "\u200e", "\u202a", "\ud7ff", "\U000e0001", "\U0001d11e", "\u00df", "\u0130", "\u03c2", "x"]
+    fixed = ["", "\u0627\u0628\u00ad", "\u0627\ufc5e", "\ufb1d", "\u0627a\u0628", "a\u0627", "\u0627 1 \u0628", "\u00ad", "\u00ad\u00ad", "\u0627\u200c", "\u05d0\ufe0f", "I\u00adX",
+             "\u2168", "user\u00a0name"]
+    for t in fixed + ["".join(rng.choice(pool) for _ in range(rng.randrange(1, 7))) for _ in range(1500 if not ctx.thorough else 40000)]:
+        try:
+            want = ("ok", py_saslprep(t))
+        except ValueError:
+            want = ("err", "ValueError")
+        try:
+            got = ("ok", real_saslprep(t))
+        except ValueError:
+            got = ("err", "ValueError")
+        except Exception as e:  # noqa: BLE001
+            got = ("err", errname(e))
+        o_sasl.check("saslprep:" + want[0], got == want, {"op": "saslprep", "text": [ord(c) for c in t]}, list(got), list(want))
+        if first_only and o_sasl.mismatches:
+            break
+    return o_sasl
+
+
 def ref_des():
     """independent FIPS 46-3 DES (+ crypt(3) salt/rounds) in plain Python, used by the search oracle"""
     IP = [58,50,42,34,26,18,10,2,60,52,44,36,28,20,12,4,62,54,46,38,30,22,14,6,64,56,48,40,32,24,16,8,57,49,41,33,25,17,9,1,59,51,43,35,27,19,11,3,61,53,45,37,29,21,13,5,63,55,47,39,31,23,15,7]
@@ -260,6 +292,10 @@ def ref_des():
 
 def search(ctx, broken, seeds):
     warnings.simplefilter("ignore")
+    o = saslprep_oracle(ctx, first_only=True)
+    if o.mismatches:
+        m = o.mismatches[0]
+        return {"input": m["input"], "observed": m["impl"], "expected": m["model"]}
     import passlib.crypto.des as pd
     from passlib.crypto import digest as pdg
     from passlib.crypto._md4 import md4 as pmd4
